@@ -386,10 +386,11 @@ class C06Pinning:
 class C10Refresh:
     """Operators in use == operators rebuilt from scratch for the potential in force."""
 
-    def __init__(self, check_expected=True):
+    def __init__(self, check_expected=True, rebuild=True):
         self.refreshes = 0
         self.compared = 0
         self.check_expected = check_expected
+        self.rebuild = rebuild  # False: only the comparison with the reference operator for the potential in force
         self.max_stale = 0.0
 
     def _fresh(self, sim, link_exponents):
@@ -403,7 +404,7 @@ class C10Refresh:
 
     def _cmp(self, sim, tag, step):
         ops = sim.h.solver.operators
-        if ops.link_exponents is None:
+        if ops.link_exponents is None or not self.rebuild:
             return []
         if not np.all(np.isfinite(np.asarray(ops.link_exponents))):
             return []  # a blown-up (overflowed) screening iteration: nothing to compare
